@@ -1,1 +1,282 @@
-// ---- units/C01/flags.rs (placeholder)
+// ---- units/C01/flags.rs: the flag helpers of translator::x86::semantics::Semantics (set_zf, set_sf, set_of, set_cf)
+//@ source lib/translator/x86/semantics.rs
+//@ item struct Semantics
+
+/// the 1-bit IL scalar that holds a flag
+pub open spec fn flag_scalar(name: Seq<char>) -> Scalar { named_scalar(name, 1) }
+
+/// exactly one instruction `flag := src` was appended to the block; `src` is a well-sorted 1-bit expression
+pub open spec fn flag_assigned(b0: Block, b1: Block, name: Seq<char>) -> bool {
+    &&& b1.instructions@.len() == b0.instructions@.len() + 1
+    &&& b1.instructions@.last().operation matches Operation::Assign { dst, src }
+    &&& b1.pushed_op(b0, Operation::Assign { dst, src })
+    &&& dst == flag_scalar(name)
+    &&& expr_wf(src) && expr_bits(src) == 1
+}
+
+/// the expression assigned by the last instruction of the block
+pub open spec fn last_src(b: Block) -> Expression {
+    match b.instructions@.last().operation { Operation::Assign { dst, src } => src, _ => arbitrary() }
+}
+
+/// ZF: the result is zero
+pub open spec fn zf_ok(result: Expression, src: Expression, env: Env) -> bool {
+    eval_spec(result, env) matches EvalR::Val(w, v) ==> eval_spec(src, env) == EvalR::Val(1, b2n(v == 0))
+}
+
+/// SF: the most significant bit of the result
+pub open spec fn sf_ok(result: Expression, src: Expression, env: Env) -> bool {
+    eval_spec(result, env) matches EvalR::Val(w, v) ==> eval_spec(src, env) == EvalR::Val(1, msb(w, v))
+}
+
+/// OF: whenever `result` holds lhs - rhs (subtract) resp. lhs + rhs at their common width, the flag says that the
+/// SIGNED subtraction resp. addition overflows
+pub open spec fn of_ok(result: Expression, lhs: Expression, rhs: Expression, subtract: bool, src: Expression, env: Env) -> bool {
+    match (eval_spec(lhs, env), eval_spec(rhs, env), eval_spec(result, env)) {
+        (EvalR::Val(w, a), EvalR::Val(wb, b), EvalR::Val(wr, res)) =>
+            res == (if subtract { bv_sub(w, a, b) } else { bv_add(w, a, b) }) ==> eval_spec(src, env) == EvalR::Val(1, b2n(signed_overflow(w, a, b, subtract))),
+        _ => true,
+    }
+}
+
+/// CF (subtraction): whenever `result` holds lhs - b for some b of the same width, the flag says that the UNSIGNED
+/// subtraction borrows (lhs < b)
+pub open spec fn cf_ok(result: Expression, lhs: Expression, src: Expression, env: Env) -> bool {
+    match (eval_spec(lhs, env), eval_spec(result, env)) {
+        (EvalR::Val(w, a), EvalR::Val(wr, res)) =>
+            forall|b: nat| (b < pow2(w) && res == #[trigger] bv_sub(w, a, b)) ==> eval_spec(src, env) == EvalR::Val(1, b2n(unsigned_overflow(w, a, b, true))),
+        _ => true,
+    }
+}
+
+pub proof fn lemma_zf_eval(result: Expression, c: Constant, env: Env)
+    requires expr_wf(result), env_sorted(env), c.wf(), c.bits as nat == expr_bits(result), c.value@ == 0,
+    ensures zf_ok(result, Expression::Cmpeq(Box::new(result), Box::new(Expression::Constant(c))), env),
+{
+    lemma_eval_wf_val(result, env);
+    reveal(bv_cmpeq);
+    assert(eval_spec(Expression::Constant(c), env) == EvalR::Val(c.bits as nat, c.value@));
+}
+
+pub proof fn lemma_sf_eval(result: Expression, c: Constant, env: Env)
+    requires expr_wf(result), expr_bits(result) >= 2, env_sorted(env), c.wf(), c.bits as nat == expr_bits(result), c.value@ == expr_bits(result) - 1,
+    ensures sf_ok(result, Expression::Trun(1, Box::new(Expression::Shr(Box::new(result), Box::new(Expression::Constant(c))))), env),
+{
+    lemma_eval_wf_val(result, env);
+    reveal(bv_shr); reveal(bv_trun);
+    let sh = Expression::Shr(Box::new(result), Box::new(Expression::Constant(c)));
+    assert(eval_spec(Expression::Constant(c), env) == EvalR::Val(c.bits as nat, c.value@));
+    assert(eval_spec(sh, env) == bin_spec(BinOp::Shr, eval_spec(result, env), EvalR::Val(c.bits as nat, c.value@)));
+    if let EvalR::Val(w, v) = eval_spec(result, env) {
+        lemma_msb(w, v);
+        lemma2_to64();
+        assert(pow2(1) == 2);
+        lemma_small_mod(msb(w, v), 2);
+    }
+}
+
+pub open spec fn of_form(lhs: Expression, rhs: Expression, result: Expression, subtract: bool, ones: Constant, cw: Constant) -> Expression {
+    let x0 = Expression::Xor(Box::new(lhs), Box::new(rhs));
+    let e0 = if subtract { x0 } else { Expression::Xor(Box::new(x0), Box::new(Expression::Constant(ones))) };
+    let e1 = Expression::Xor(Box::new(lhs), Box::new(result));
+    let anded = Expression::And(Box::new(e0), Box::new(e1));
+    Expression::Trun(1, Box::new(Expression::Shr(Box::new(anded), Box::new(Expression::Constant(cw)))))
+}
+
+pub proof fn lemma_of_eval(lhs: Expression, rhs: Expression, result: Expression, subtract: bool, ones: Constant, cw: Constant, env: Env)
+    requires
+        expr_wf(lhs), expr_wf(rhs), expr_wf(result), expr_bits(lhs) == expr_bits(rhs), expr_bits(lhs) == expr_bits(result),
+        expr_bits(lhs) >= 2, env_sorted(env),
+        ones.wf(), ones.bits as nat == expr_bits(lhs), ones.value@ == pow2(expr_bits(lhs)) - 1,
+        cw.wf(), cw.bits as nat == expr_bits(lhs), cw.value@ == expr_bits(lhs) - 1,
+    ensures of_ok(result, lhs, rhs, subtract, of_form(lhs, rhs, result, subtract, ones, cw), env),
+{
+    let w = expr_bits(lhs);
+    lemma_eval_wf_val(lhs, env);
+    lemma_eval_wf_val(rhs, env);
+    lemma_eval_wf_val(result, env);
+    let x0 = Expression::Xor(Box::new(lhs), Box::new(rhs));
+    let cones = Expression::Constant(ones);
+    let x0n = Expression::Xor(Box::new(x0), Box::new(cones));
+    let e0 = if subtract { x0 } else { x0n };
+    let e1 = Expression::Xor(Box::new(lhs), Box::new(result));
+    let anded = Expression::And(Box::new(e0), Box::new(e1));
+    let ccw = Expression::Constant(cw);
+    let sh = Expression::Shr(Box::new(anded), Box::new(ccw));
+    let whole = Expression::Trun(1, Box::new(sh));
+    assert(whole == of_form(lhs, rhs, result, subtract, ones, cw));
+    assert(eval_spec(cones, env) == EvalR::Val(w, ones.value@));
+    assert(eval_spec(ccw, env) == EvalR::Val(w, cw.value@));
+    assert(eval_spec(x0, env) == bin_spec(BinOp::Xor, eval_spec(lhs, env), eval_spec(rhs, env)));
+    assert(eval_spec(x0n, env) == bin_spec(BinOp::Xor, eval_spec(x0, env), EvalR::Val(w, ones.value@)));
+    assert(eval_spec(e1, env) == bin_spec(BinOp::Xor, eval_spec(lhs, env), eval_spec(result, env)));
+    assert(eval_spec(anded, env) == bin_spec(BinOp::And, eval_spec(e0, env), eval_spec(e1, env)));
+    assert(eval_spec(sh, env) == bin_spec(BinOp::Shr, eval_spec(anded, env), EvalR::Val(w, cw.value@)));
+    assert(eval_spec(whole, env) == trun_spec(1, eval_spec(sh, env)));
+    if let EvalR::Val(wa, a) = eval_spec(lhs, env) {
+        if let EvalR::Val(wb, b) = eval_spec(rhs, env) {
+            if let EvalR::Val(wr, res) = eval_spec(result, env) {
+                if res == (if subtract { bv_sub(w, a, b) } else { bv_add(w, a, b) }) {
+                    reveal(bv_xor); reveal(bv_and); reveal(bv_shr); reveal(bv_trun);
+                    lemma_of_formula(w, a, b, res, subtract);
+                    lemma_msb(w, a); lemma_msb(w, b); lemma_msb(w, res);
+                    let t0 = nat_xor(a, b);
+                    lemma_msb_xor(w, a, b);
+                    lemma_msb(w, t0);
+                    let t0n = (pow2(w) - 1 - t0) as nat;
+                    lemma_msb_not(w, t0);
+                    let t0x = if subtract { t0 } else { t0n };
+                    let t1 = nat_xor(a, res);
+                    lemma_msb_xor(w, a, res);
+                    lemma_msb(w, t1);
+                    lemma_pow2_pos(w);
+                    let t = nat_and(t0x, t1);
+                    lemma_msb_and(w, t0x, t1);
+                    lemma_msb(w, t);
+                    lemma2_to64();
+                    assert(pow2(1) == 2);
+                    lemma_small_mod(msb(w, t), 2);
+                }
+            }
+        }
+    }
+}
+
+pub proof fn lemma_cf_eval(result: Expression, lhs: Expression, env: Env)
+    requires expr_wf(lhs), expr_wf(result), expr_bits(lhs) == expr_bits(result), env_sorted(env),
+    ensures cf_ok(result, lhs, Expression::Cmpltu(Box::new(lhs), Box::new(result)), env),
+{
+    lemma_eval_wf_val(lhs, env);
+    lemma_eval_wf_val(result, env);
+    reveal(bv_cmpltu);
+    if let EvalR::Val(w, a) = eval_spec(lhs, env) {
+        if let EvalR::Val(wr, res) = eval_spec(result, env) {
+            assert forall|b: nat| (b < pow2(w) && res == #[trigger] bv_sub(w, a, b)) implies
+                eval_spec(Expression::Cmpltu(Box::new(lhs), Box::new(result)), env) == EvalR::Val(1, b2n(unsigned_overflow(w, a, b, true))) by {
+                lemma_cf_formula(w, a, b);
+            }
+        }
+    }
+}
+
+impl<'s> Semantics<'s> {
+
+//@ fn impl<'s> Semantics<'s> :: fn set_zf
+//@ spec
+    requires expr_wf(result), old(block).block_wf(), old(block).next_instruction_index < usize::MAX,
+    ensures
+        /*@wf*/ final(block).block_wf(),
+        /*@ok*/ r is Ok,
+        /*@assigned*/ flag_assigned(*old(block), *final(block), "ZF"@),
+        /*@zero*/ forall|env: Env| env_sorted(env) ==> #[trigger] zf_ok(result, last_src(*final(block)), env),
+//@ enter
+    proof {
+        broadcast use crate::strmap::axiom_into_string_str;
+        lemma_expr_wf_bits(result);
+        lemma_pow2_pos(expr_bits(result));
+        lemma_small_mod(0, pow2(expr_bits(result)));
+    }
+//@ before 0 `block.assign(scalar("ZF", 1), expr)`
+    proof {
+        let c = rhs_of(expr)->Constant_0;
+        assert(expr_wf(Expression::Constant(c)));
+        assert(expr_wf(expr) && expr_bits(expr) == 1);
+        assert forall|env: Env| env_sorted(env) implies #[trigger] zf_ok(result, expr, env) by { lemma_zf_eval(result, c, env); }
+    }
+//@ end
+
+//@ fn impl<'s> Semantics<'s> :: fn set_sf
+//@ spec
+    requires expr_wf(result), old(block).block_wf(), old(block).next_instruction_index < usize::MAX,
+    ensures
+        /*@wf*/ final(block).block_wf(),
+        /*@no_sort_error*/ expr_bits(result) >= 2 ==> r is Ok,
+        /*@assigned*/ r is Ok ==> flag_assigned(*old(block), *final(block), "SF"@),
+        /*@sign*/ r is Ok ==> (forall|env: Env| env_sorted(env) ==> #[trigger] sf_ok(result, last_src(*final(block)), env)),
+        /*@err_frame*/ r is Err ==> *final(block) == *old(block),
+//@ enter
+    proof {
+        broadcast use crate::strmap::axiom_into_string_str;
+        lemma_expr_wf_bits(result);
+        lemma_lt_pow2(expr_bits(result));
+        lemma_small_mod((expr_bits(result) - 1) as nat, pow2(expr_bits(result)));
+    }
+//@ before 0 `block.assign(scalar("SF", 1), expr)`
+    proof {
+        let sh = lhs_of(expr);
+        let c = rhs_of(sh)->Constant_0;
+        assert(expr_wf(Expression::Constant(c)));
+        assert(expr_wf(sh) && expr_bits(sh) == expr_bits(result));
+        assert(expr_wf(expr) && expr_bits(expr) == 1);
+        assert forall|env: Env| env_sorted(env) implies #[trigger] sf_ok(result, expr, env) by { lemma_sf_eval(result, c, env); }
+    }
+//@ end
+
+//@ fn impl<'s> Semantics<'s> :: fn set_of
+//@ spec
+    requires
+        expr_wf(result), expr_wf(lhs), expr_wf(rhs),
+        old(block).block_wf(), old(block).next_instruction_index < usize::MAX,
+    ensures
+        /*@wf*/ final(block).block_wf(),
+        /*@no_sort_error*/ (expr_bits(lhs) == expr_bits(rhs) && expr_bits(lhs) == expr_bits(result) && expr_bits(lhs) >= 2) ==> r is Ok,
+        /*@assigned*/ r is Ok ==> flag_assigned(*old(block), *final(block), "OF"@),
+        /*@overflow*/ (r is Ok && expr_bits(lhs) <= 64) ==> (forall|env: Env| env_sorted(env) ==> #[trigger] of_ok(result, lhs, rhs, subtract, last_src(*final(block)), env)),
+        /*@err_frame*/ r is Err ==> *final(block) == *old(block),
+//@ enter
+    proof {
+        broadcast use crate::strmap::axiom_into_string_str;
+        lemma_expr_wf_bits(lhs);
+        lemma_expr_wf_bits(rhs);
+        lemma_expr_wf_bits(result);
+        let w = expr_bits(lhs);
+        lemma_lt_pow2(w);
+        lemma_small_mod((w - 1) as nat, pow2(w));
+        if w <= 64 { lemma_ones64(w); }
+    }
+//@ before 0 `block.assign(scalar("OF", 1), Expr::trun(1, expr)?)`
+    proof {
+        let anded = lhs_of(expr);
+        let cw = rhs_of(expr)->Constant_0;
+        let e0 = lhs_of(anded);
+        let e1 = rhs_of(anded);
+        let ones = rhs_of(e0)->Constant_0;
+        let w = expr_bits(lhs);
+        assert(expr_wf(Expression::Constant(cw)));
+        assert(expr_wf(e1) && expr_bits(e1) == w);
+        assert(expr_wf(e0) && expr_bits(e0) == w) by {
+            if !subtract { assert(expr_wf(Expression::Constant(ones))); assert(expr_wf(lhs_of(e0))); }
+        }
+        assert(expr_wf(anded) && expr_bits(anded) == w);
+        assert(expr_wf(expr) && expr_bits(expr) == w);
+        if w >= 2 {
+            assert(expr_wf(Expression::Trun(1, Box::new(expr))));
+            if w <= 64 {
+                assert(Expression::Trun(1, Box::new(expr)) == of_form(lhs, rhs, result, subtract, ones, cw));
+                assert forall|env: Env| env_sorted(env) implies #[trigger] of_ok(result, lhs, rhs, subtract, Expression::Trun(1, Box::new(expr)), env) by {
+                    lemma_of_eval(lhs, rhs, result, subtract, ones, cw, env);
+                }
+            }
+        }
+    }
+//@ end
+
+//@ fn impl<'s> Semantics<'s> :: fn set_cf
+//@ spec
+    requires expr_wf(result), expr_wf(lhs), old(block).block_wf(), old(block).next_instruction_index < usize::MAX,
+    ensures
+        /*@wf*/ final(block).block_wf(),
+        /*@no_sort_error*/ expr_bits(lhs) == expr_bits(result) ==> r is Ok,
+        /*@assigned*/ r is Ok ==> flag_assigned(*old(block), *final(block), "CF"@),
+        /*@borrow*/ r is Ok ==> (forall|env: Env| env_sorted(env) ==> #[trigger] cf_ok(result, lhs, last_src(*final(block)), env)),
+        /*@err_frame*/ r is Err ==> *final(block) == *old(block),
+//@ enter
+    proof { broadcast use crate::strmap::axiom_into_string_str; }
+//@ before 0 `block.assign(scalar("CF", 1), expr)`
+    proof {
+        assert(expr_wf(expr) && expr_bits(expr) == 1);
+        assert forall|env: Env| env_sorted(env) implies #[trigger] cf_ok(result, lhs, expr, env) by { lemma_cf_eval(result, lhs, env); }
+    }
+//@ end
+
+} // impl Semantics
